@@ -56,6 +56,18 @@ def menu(names):
     return m
 
 
+DNAMES = ('a', 'b', 'default')
+
+
+def dmenu():
+    """S1c: the rule set contains a rule called like the configured default
+    rule ('default'), which Rules.__missing__ would fall back to."""
+    m = ['role:x', '@']
+    for n in DNAMES + (UNDEF,):
+        m += ['rule:%s' % n, 'not rule:%s' % n, 'role:x and rule:%s' % n]
+    return m
+
+
 def vmenu(names):
     m = ['role:x']
     for n in list(names) + [UNDEF]:
@@ -91,6 +103,9 @@ def plan(tier, seed):
     jobs = [{'space': 'S1', 'lo': lo, 'hi': hi, 'tier': tier,
              'weight': hi - lo}
             for lo, hi in core.chunks(total, 32 if tier == 'quick' else 256)]
+    for lo, hi in core.chunks(len(dmenu()) ** 3, 8):
+        jobs.append({'space': 'S1c', 'lo': lo, 'hi': hi, 'tier': tier,
+                     'weight': hi - lo})
     for lo, hi in core.chunks(5 ** 6, 16):
         jobs.append({'space': 'S1b', 'lo': lo, 'hi': hi, 'tier': tier,
                      'weight': hi - lo})
@@ -138,6 +153,10 @@ def run(job, seed):
     M = len(m)
     enf = world.bare_enforcer()
     ring = job['space'] == 'S1b'
+    if job['space'] == 'S1c':
+        names = DNAMES
+        m = dmenu()
+        M = len(m)
     if ring:
         # six names on a ring: long cycles, chords, chains into cycles
         names = ['n%d' % i for i in range(6)]
@@ -157,7 +176,7 @@ def run(job, seed):
         problem = undefined or cyc
         world.set_rules(enf, rules)
         case = {'rules': rules}
-        acc.case('S1', any(c06.refs_of(v) for v in rules.values()))
+        acc.case(job['space'], any(c06.refs_of(v) for v in rules.values()))
         acc.ev()
         try:
             got = enf.check_rules()
